@@ -87,7 +87,7 @@ func checkC18(p *core.Program, r *core.Report) {
 	fns := p.FuncsOf("hub")
 	det, syn := detachedSites(p, fns, mUpd)
 	for _, s := range det {
-		r.Fail(R1, "detached notification in "+p.FnName(core.Outermost(s.Fn)), p.Pos(s.In.Pos()), "every state change notifies from its own goroutine after a fixed sleep: two changes in quick succession (or a later synchronous notification from Register/Unregister/Cancel) can be delivered in either order, so the application's last notification can show an older state than PairingDetailForSki reports", "change s1 -> goroutine g1 sleeps 500ms; change s2 -> goroutine g2 sleeps 500ms; g2 runs before g1 -> application sees s2 then s1")
+		r.Fail(R1, "detached notification in "+p.FnName(goOrigin(p, s.Fn)), p.Pos(s.In.Pos()), "every state change notifies from its own goroutine after a fixed sleep: two changes in quick succession (or a later synchronous notification from Register/Unregister/Cancel) can be delivered in either order, so the application's last notification can show an older state than PairingDetailForSki reports", "change s1 -> goroutine g1 sleeps 500ms; change s2 -> goroutine g2 sleeps 500ms; g2 runs before g1 -> application sees s2 then s1")
 	}
 	for _, s := range syn {
 		r.OK(R1, "synchronous notification in "+p.FnName(s.Fn), p.Pos(s.In.Pos()), "issued in the caller's context")
@@ -101,11 +101,11 @@ func checkC18(p *core.Program, r *core.Report) {
 	var delays []string
 	for _, s := range det {
 		body := s.Fn
-		outer := p.FnName(core.Outermost(s.Fn))
+		outer := p.FnName(goOrigin(p, s.Fn))
 		c := core.Common(s.In)
 		var skiVal ssa.Value
 		if c != nil && len(c.Args) > 0 {
-			skiVal = core.Canon(c.Args[0])
+			skiVal = resolveGoParam(p, c.Args[0])
 		}
 		// (a) delays
 		key := "delay of the detached notification in " + outer
@@ -207,7 +207,7 @@ func checkC18(p *core.Program, r *core.Report) {
 	}
 	// ---- R2
 	stored := func(v ssa.Value, site core.Site) (bool, string) {
-		v = core.Canon(v)
+		v = resolveGoParam(p, v)
 		// (a) ConnectionStateDetail() of a stored service
 		if c, ok := v.(*ssa.Call); ok && core.CallsMethodNamed(c, apiPath, "ServiceDetails", "ConnectionStateDetail") {
 			if storedService(p, c.Call.Args[0], 4) {
@@ -216,7 +216,7 @@ func checkC18(p *core.Program, r *core.Report) {
 			return false, "the detail comes from a ServiceDetails value that is not the hub's stored record"
 		}
 		// (b) the value handed to SetConnectionStateDetail earlier in the enclosing function
-		outer := core.Outermost(site.Fn)
+		outer := goOrigin(p, site.Fn)
 		found := false
 		core.EachInstr(outer, func(in ssa.Instruction) {
 			c := core.Common(in)
@@ -241,6 +241,9 @@ func checkC18(p *core.Program, r *core.Report) {
 	for _, s := range append(append([]core.Site{}, det...), syn...) {
 		c := core.Common(s.In)
 		key := "detail argument in " + p.FnName(s.Fn)
+		if gCallSites[s.Fn] != nil && goOrigin(p, s.Fn) != core.Outermost(s.Fn) {
+			key = "detail argument in " + p.FnName(goOrigin(p, s.Fn)) + "$1"
+		}
 		ok, why := stored(c.Args[1], s)
 		// user operations update the stored detail object in place: a delayed notification of an earlier
 		// state that is still pending holds that very object and therefore shows the newer state too
